@@ -44,6 +44,7 @@ impl<'a> Ctx<'a> {
                     c14: self.pending_c14.clone(),
                     proc: None,
                     minimised: false,
+                    build: crate::replay::this_build().to_string(),
                     note: String::new(),
                 };
                 std::fs::write(file, serde_json::to_string_pretty(&r).unwrap()).unwrap();
@@ -57,7 +58,7 @@ impl<'a> Ctx<'a> {
     }
 
     pub fn replay(&self, prop: &str, v: Violation, plan: SimPlan) -> Replay {
-        Replay { property: prop.to_string(), tier: "lib".to_string(), seed: self.seed, run: self.run, violation: v, plan, c14: None, proc: None, minimised: false, note: String::new() }
+        Replay { property: prop.to_string(), tier: "lib".to_string(), seed: self.seed, run: self.run, violation: v, plan, c14: None, proc: None, minimised: false, build: crate::replay::this_build().to_string(), note: String::new() }
     }
 }
 
